@@ -47,7 +47,7 @@ def run(chk):
                 qs.append({"q": kind, "c": d["c"], "n": n})
         for d in g["common"]:
             qs.append({"q": "common", "c": d["a"], "b": d["b"]})
-        reqs.append({"id": gi, "classes": classes, "queries": qs})
+        reqs.append({"id": gi, "classes": classes, "queries": qs, "batches": 1 + gi % 3})      # the descriptions arrive in 1, 2 or 3 loads
     out = run_batch([VH, "typemap"], reqs, procs=12, chunk=100)
     for gi, g in enumerate(graphs):
         o = out[gi]
